@@ -96,6 +96,18 @@ pub fn run(args: &Args) {
         }));
         t.emit(json!({"event":"CapsArg","text":codes(&text),"outcome":o,"msg":msg}));
     }
+    // capability text with characters that are not ASCII (in front of the operator, inside names, alone)
+    for text in ["é=p", "cap_chowné+ep", "cap_chown,ü=ep", "日=e", "=e cäp_chown-e", "cap_ſyslog=e", "cap_chown=é", "é", "cap_chown=p é=e"] {
+        let text = text.to_string();
+        let (o, msg) = outcome(guarded(|| {
+            let fo = FileOptions::new("/usr/bin/x").caps(text.clone())?;
+            PackageBuilder::new("c", "1", "MIT", "noarch", "caps test")
+                .compression(CompressionWithLevel::None)
+                .with_file(&src, fo)?
+                .build()
+        }));
+        t.emit(json!({"event":"CapsArg","text":codes(&text),"outcome":o,"msg":msg}));
+    }
     // compression levels across and beyond each range, one child process per case
     let exe = std::env::current_exe().unwrap();
     let mut cases: Vec<(&str, i64)> = vec![("none", 0)];
@@ -152,7 +164,11 @@ pub fn run(args: &Args) {
         }
     }
     // metadata setters with arbitrary strings
-    let pool: Vec<&str> = vec!["", "a", "multi\nline", "é日本", "x\u{0}y", " ", "-", "1:2-3", "%{macro}", "a/b", "\u{1F600}"];
+    let long_accented = "é".repeat(40);
+    let long_cjk = "日".repeat(30);
+    let long_mixed = format!("üüüüü{}", "n".repeat(65));
+    let pool: Vec<&str> = vec!["", "a", "multi\nline", "é日本", "x\u{0}y", " ", "-", "1:2-3", "%{macro}", "a/b", "\u{1F600}",
+                               &long_accented, &long_cjk, &long_mixed];
     let long = "L".repeat(70000);
     let nmeta = args.num("meta", 300);
     for k in 0..nmeta {
